@@ -114,8 +114,11 @@ def build(n, combo=("shards", 2, "func", "bfv", "usize"), v=None, subst=None, ch
     return op
 
 
-def read_fault(src, p, i):
-    return {"src": src, "kind": "read", "pass": p, "idx": i}
+def read_fault(src, p, i, ekind=None):
+    f = {"src": src, "kind": "read", "pass": p, "idx": i}
+    if ekind:
+        f["ekind"] = ekind       # io::ErrorKind of the injected error (default Other)
+    return f
 
 
 def rewind_fault(src, k):
@@ -447,6 +450,28 @@ def c17_faults(seed, nmax=12, stride=1):
                           log2_buckets=r.choice([0, 1, 2]) if offline else r.choice([None, 0, 4]))
                 kt = r.choice(["usize", "str"])
                 out.append(episode([b, {"op": "len"}], kt=kt, kf=keyfn(r, kt), src="faults"))
+    # the same with error kinds that some readers retry on (Interrupted, WouldBlock): the builder must return them
+    # like any other; and with a value source that holds exactly n values while the key source fails after its last
+    # key (fault at index n): the key error is what must come back
+    for n in range(0, nmax + 1, max(1, stride)):
+        combo = combos[n % len(combos)]
+        func = combo[2] == "func"
+        for ek in ("interrupted", "wouldblock", "timeout"):
+            for (src, p, i) in [("key", 0, r.randrange(n + 1)), ("val", 0, r.randrange(max(n, 1))), ("key", 1, 0)]:
+                if src == "val" and (not func or n == 0):
+                    continue
+                dup = p > 0 and n >= 2
+                b = build(n, combo, subst=[[n - 1, 0]] if dup else [], check_dups=dup,
+                          faults=[read_fault(src, p, i, ek)], offline=bool(n % 2))
+                out.append(episode([b, {"op": "len"}], kt="usize", kf=keyfn(r, "usize"), src="faults"))
+        if func:
+            for p in (0, 1):
+                dup = p > 0 and n >= 2
+                if p > 0 and not dup:
+                    continue
+                b = build(n, combo, v=vals(1, 0, 30, vn=n), subst=[[n - 1, 0]] if dup else [], check_dups=dup,
+                          faults=[read_fault("key", p, n)])
+                out.append(episode([b, {"op": "len"}], kt="usize", kf=keyfn(r, "usize"), src="faults"))
     # faults in builds that would succeed: first pass only is certain; later passes only if the build retries
     for n in range(0, nmax + 1, stride):
         combo = combos[(n + 1) % len(combos)]
